@@ -394,7 +394,12 @@ pub fn gen_client(rng: &mut Rng, id: usize) -> Vec<String> {
         let n = if rng.chance(1, 3) { rng.range(100, 400) } else { rng.below(6) };
         suffix.extend(enc_frame(true, 0, 2, None, &rng.bytes(n), LenForm::Minimal));
     }
-    let mutate = if rng.chance(1, 6) { format!(" mut={}", rng.below(28)) } else { String::new() };
+    let mutate = match rng.below(12) {
+        0 | 1 => format!(" mut={}", rng.below(28)),
+        // differs from the expected value only in the case of one letter (the comparison is exact)
+        2 | 3 => format!(" mutcase={}", rng.below(28)),
+        _ => String::new(),
+    };
     lines.push(format!(
         "peerkey {} {} accept={}{}",
         hex(pre.as_bytes()),
